@@ -457,6 +457,10 @@ def t_to_sync_iter(E):
                         x = a[0]
                         if not isinstance(x, VVal):
                             raise Unsupported('put of %r' % (x,), node)
+                        E.oblige(Qn + '/handover.queue_is_first_in_first_out', z3.BoolVal(o.fields.get('order', 'fifo') == 'fifo'),
+                                 props={'C16'}, detail='queue.%s: once the producer is two items ahead the backlog comes out in '
+                                                       'another order -- the end marker, put last, first' % {
+                                     'lifo': 'LifoQueue', 'priority': 'PriorityQueue'}.get(o.fields.get('order'), 'Queue'))
                         if name == 'put_nowait':
                             ms = o.fields.get('maxsize')
                             E.oblige(Qn + '/pre(put_nowait).hand_over_queue_is_unbounded',
@@ -682,8 +686,12 @@ def install_c17(E, st, Qn):
                     """run_until_complete(aw): RuntimeError if the loop is already running or closed; runs the
                     loop in THIS thread until aw is done; returns/raises aw's outcome."""
                     E.oblige('%s/pre(run_until_complete).holds_the_per_loop_lock' % st['top'],
-                             z3.BoolVal(any(z3.eq(l, o.t) for l in st.get('held_loop_locks', []))), props={'C17'},
-                             detail='a loop must never be run by two threads at once')
+                             z3.BoolVal(any(z3.eq(l, o.t) and w == bool(st.get('in_worker')) for l, w in
+                                            zip(st.get('held_loop_locks', []), st.get('lock_taken_in_worker', [])))),
+                             props={'C17'},
+                             detail='a loop must never be run by two threads at once: the lock is held BY THE THREAD THAT RUNS '
+                                    'THE LOOP (a lock taken by the caller\'s coroutine and held across its await blocks the '
+                                    'caller\'s whole event loop as soon as a second caller wants it)')
                     if E.branch(z3.Select(running(), o.t)):
                         E.throw('RuntimeError', origin='already-running')
                     st.setdefault('ran', []).append(('until_complete', o.t))
@@ -713,7 +721,12 @@ def install_c17(E, st, Qn):
                     return NONE
                 return VStub('loop.call_soon_threadsafe', cst)
             if name == 'stop':
-                return VStub('loop.stop', lambda E_, a, k: NONE, attrs={'loop': o})
+                def stop_directly(E_, a, k):
+                    # loop.stop() called right here, i.e. in the CURRENT thread (a callback scheduled with
+                    # call_soon_threadsafe is recorded by that stub and never comes through here)
+                    st.setdefault('stopped_directly', []).append(o.t)
+                    return NONE
+                return VStub('loop.stop', stop_directly, attrs={'loop': o})
         if isinstance(o, VVal) and o.t.sort() == ValS and name in ('done', 'cancelled'):
             # the caller's awaitable, if it is a future or a task, may already be settled
             return VStub('Future.' + name, lambda E_, a, k: VBool(
@@ -791,11 +804,13 @@ def install_c17(E, st, Qn):
             def enter():
                 # blocks until no other thread runs the loop (lock invariant: free => nobody runs it)
                 st.setdefault('held_loop_locks', []).append(cm.fields['loop'])
+                st.setdefault('lock_taken_in_worker', []).append(bool(st.get('in_worker')))
                 E.w['running'] = z3.Store(running(), cm.fields['loop'], z3.Select(st['foreign'](), cm.fields['loop']))
                 return cm
 
             def exit_(exc):
                 st['held_loop_locks'].remove(cm.fields['loop'])
+                st['lock_taken_in_worker'].pop()
                 return False
             return enter, exit_
         return None
@@ -978,7 +993,11 @@ def t_loop_in_thread(E):
         sched = st.get('scheduled', [])
         ok = len(sched) == 1 and isinstance(sched[0][0], VStub) and sched[0][0].name == 'loop.stop' and \
             z3.eq(sched[0][0].attrs['loop'].t, target)
-        E.oblige(Qn + '.<locals>._stopper/ensures.asks_the_target_loop_to_stop_thread_safely', z3.BoolVal(bool(ok)))
+        E.oblige(Qn + '.<locals>._stopper/ensures.asks_the_target_loop_to_stop_thread_safely',
+                 z3.BoolVal(bool(ok) and not st.get('stopped_directly')),
+                 detail='exactly one loop.stop, through call_soon_threadsafe: a direct loop.stop() from the stopping thread '
+                        'is not thread-safe, and with the scheduled one it leaves a stale stop request behind that ends the '
+                        'NEXT run of the loop at once (scheduled: %d, direct: %d)' % (len(sched), len(st.get('stopped_directly', []))))
         E.oblige(Qn + '.<locals>._stopper/ensures.returns_only_after_the_loop_thread_has_finished',
                  z3.BoolVal(bool(st.get('joined')) and bool(st.get('forever_returned'))))
         ran = st.get('ran', [])
